@@ -439,6 +439,7 @@ class Facts:
                 if t[1] == "zext":
                     iv = self.interval(t[2], depth + 1)
                     lo, hi = iv if iv else (0, MASK(t[4]))
+                    hi = min(hi, MASK(t[4]))      # a zero-extended value never exceeds its source width
                 elif t[1] == "sext":
                     iv = self.interval(t[2], depth + 1)
                     if iv and iv[1] < (1 << (t[4] - 1)):
@@ -528,8 +529,16 @@ class Facts:
                 elif p in ("slt", "sle", "sgt", "sge") and bits:
                     half = 1 << (bits - 1)
                     # t <s C with C >= 0 says nothing unsigned unless t known non-negative
-                    if p in ("sgt", "sge") and oh < half and ol == oh:
-                        pass
+                    if hi < half and oh < half:
+                        # both sides are non-negative as signed numbers: the signed order is the unsigned order
+                        if p == "slt":
+                            hi = min(hi, oh - 1)
+                        elif p == "sle":
+                            hi = min(hi, oh)
+                        elif p == "sgt":
+                            lo = max(lo, ol + 1)
+                        elif p == "sge":
+                            lo = max(lo, ol)
         # backward refinement: facts about a term derived from t by an invertible chain
         # (t + c, t - c, t / k, t >> k, zext t) bound t itself, provided the chain cannot wrap
         if depth <= 1 and t[0] not in ("c",):
